@@ -37,6 +37,49 @@ class C05(rowgen.RowGenProp):
         yield from self.world_cases(rng, 40 if tier == "quick" else 400)
         for _ in range(20 if tier == "quick" else 200):
             yield self.server_touches(rng)
+        for _ in range(30 if tier == "quick" else 300):
+            yield self.fresh_pair(rng)
+
+    def fresh_pair(self, rng):
+        """The statement itself as a pair of sessions: a session of two touches - the tower possibly resized in
+        between - and a freshly launched Wheatley that only rings the second; from the second Look To on they must
+        strike the same bells in the same order."""
+        w = 0.25
+        kind = rng.choice(["comp", "comp", "pn", "plainhunt"])
+        if kind == "comp":
+            spec = gens.rand_comp_spec(rng, stage=rng.randint(4, 8), calls=False, nrows=rng.randint(2, 9))
+        elif kind == "pn":
+            spec = gens.rand_pn_spec(rng, stage=rng.randint(4, 8), calls=True, start_row_p=0.3)
+        else:
+            spec = {"type": "plainhunt", "stage": rng.randint(4, 8), "start_row": None}
+        s = spec["stage"]
+        sizes = [n for n in [4, 5, 6, 8, 10, 12] if n >= max(s, len(spec.get("start_row") or ""))]
+        N1 = rng.choice(sizes)
+        N2 = rng.choice(sizes + [N1])
+        sar = rng.random() < 0.7
+        t0 = 1000.3 + rng.random()
+        row1 = (w + 0.01) * N1
+        rows1 = (len(spec["rows"]) + 6) if kind == "comp" else rng.randint(6, 2 * s + 6)
+        t_stand = t0 + 3 + rows1 * row1
+        events = [call(t0, LOOK_TO)]
+        for _ in range(rng.choice([0, 1, 2])):
+            if kind != "comp":
+                events.append(call(rng.uniform(t0 + 3, t_stand), rng.choice([BOB, SINGLE])))
+        events.append(call(t_stand, scen.STAND))
+        t1 = t_stand + 3 * row1 + 1.0 + rng.random()
+        between = []
+        if N2 != N1:
+            between.append([t1 - 0.6, "msg", {"m": "size_change", "size": N2}])
+        between.append([t1 - 0.3, "msg", {"m": "global_state", "state": [True] * N2}])
+        row2 = (w + 0.01) * N2
+        rows2 = (len(spec["rows"]) + 7) if kind == "comp" else rng.randint(6, 2 * s + 6)
+        end = t1 + 3 + rows2 * row2
+        second = [call(t1, LOOK_TO)]
+        bot = scen.bot_cfg(spec, up_down_in=True, stop_at_rounds=sar)
+        sc = {"start": 1000.0, "end": end, "tower_size": N1, "events": sorted(events + between + second, key=lambda e: e[0]),
+              "bot": bot, "rhythm": scen.stub_rhythm(w)}
+        fresh = {"start": t1 - 1.0, "end": end, "tower_size": N2, "events": second, "bot": bot, "rhythm": scen.stub_rhythm(w)}
+        return {"k": "world", "scenario": sc, "fresh": fresh, "t1": t1, "go2": None, "t0": t0}
 
     def server_touches(self, rng):
         """Server mode: two or three touches in one session, a method of another stage selected between them; each
@@ -98,7 +141,13 @@ class C05(rowgen.RowGenProp):
 
     def impl(self, req):
         if req["k"] == "world":
-            return scen.WorldProp.impl(_WORLD, req)
+            rep = scen.WorldProp.impl(_WORLD, req)
+            if req.get("fresh"):
+                from harness import sim
+                res = sim.run(req["fresh"], None)
+                rep["fresh_strikes"] = [b for (t, b, by) in res["sim"].strikes]
+                rep["fresh_crashed"] = res["crashed"]
+            return rep
         return super().impl(req)
 
     def to_model(self, req):
@@ -108,18 +157,29 @@ class C05(rowgen.RowGenProp):
 
     def compare(self, req, ir, mr):
         if req["k"] == "world":
+            ir = {k: v for k, v in ir.items() if not k.startswith("fresh_")}
             return scen.WorldProp.compare(_WORLD, req, ir, mr)
         return super().compare(req, ir, mr)
 
     def tag(self, req, reply):
         if req["k"] == "world":
-            return "bot:second-go"
+            return "bot:fresh-pair:" + req["scenario"]["bot"]["gen"]["type"] if req.get("fresh") else "bot:second-go"
         return super().tag(req, reply)
 
     def oracle_world(self, req, reply):
         sc = req["scenario"]
         if reply["crashed"] or reply["handler_crashes"]:
             return f"crash: main={reply['crashed']} handlers={reply['handler_crashes']}"
+        if req.get("fresh"):
+            second = [b for (t, b, _) in reply["strikes"] if scen.b2f(t) >= req["t1"]]
+            fresh = reply["fresh_strikes"]
+            N2 = req["fresh"]["tower_size"]
+            if second != fresh:
+                i = next((i for i, (a, b) in enumerate(zip(second, fresh)) if a != b), min(len(second), len(fresh)))
+                return (f"second touch on {N2} bells after a first on {sc['tower_size']}: strike {i} (row {i // N2}) is "
+                        f"{second[i] if i < len(second) else None}, a freshly launched Wheatley strikes "
+                        f"{fresh[i] if i < len(fresh) else None} ({len(second)} strikes against {len(fresh)})")
+            return None
         if req.get("touches"):
             from harness.props.c19 import plain_rows
             N = sc["tower_size"]
